@@ -213,19 +213,20 @@ META = {
     "technique": "Lean 4 proof (inductive invariant over entry/exit histories of the code-shaped LRU-cell model) + differential correspondence model/impl + trace oracle",
     "level_text": ("Theorems in lean/Sentinel/Props/C06.lean, kernel-checked for every rule set, every argument list and every history of entries "
                    "and exits in any order: while a rule's counter cache has not evicted, the cell of every value equals the number of live entries "
-                   "admitted with it (cell_eq_live), admission is exactly live(v) < threshold(v) for every value that already has a cell "
-                   "(admit_iff_*, check_verdict_iff under any check/commit interleaving), the cap live(v) <= threshold(v) in sequential histories with "
-                   "positive thresholds (capped_sequential) and live(v) <= threshold(v) + P - 1 under any schedule with at most P goroutines inside "
+                   "admitted with it (cell_eq_live), admission is exactly live(v) < threshold(v) for every value and every threshold incl. 0 "
+                   "(admit_iff at full strength, check_verdict_iff under any check/commit interleaving), the cap live(v) <= threshold(v) in sequential "
+                   "histories (capped_sequential) and live(v) <= threshold(v) + P - 1 under any schedule with at most P goroutines inside "
                    "api.Entry (capped_sched), no eviction while at most ParamsMaxCapacity distinct values were seen "
                    "(no_evict_of_few_values), cells return to zero, entries for other values / blocked entries / entries blocked by another slot leave a "
-                   "value's cell untouched.  The model (LRU cells, first-touch shortcut, re-extraction at exit) is tied to core/hotspot + api.Entry "
+                   "value's cell untouched.  The model (LRU cells, re-extraction at exit) is tied to core/hotspot + api.Entry "
                    "by running the same op files through the real packages and the compiled Lean driver and comparing every answer; the property "
                    "itself (ledger recomputed from the trace) is judged on the implementation's own trace."),
     "level_note": ("Trusted: Lean kernel; axioms propext/Classical.choice/Quot.sound; Go harness and canonical printing. Two deviations of the code "
-                   "from the statement are recorded as known findings with Lean witnesses, plus the check-then-act race (first touch of a value is admitted without comparison, "
-                   "so threshold 0 admits one; LRU eviction of a live value's cell beyond ParamsMaxCapacity distinct values). Sequential histories "
+                   "from the statement are recorded as known findings with Lean witnesses (LRU eviction of a live value's cell beyond ParamsMaxCapacity distinct "
+                   "values; the check-then-act race between goroutines, bounded by threshold + P - 1); the first-touch shortcut (9ba0999) and the args "
+                   "aliasing (3ae3ba7) are repaired in the tree: regression corpus + witnesses on the old semantics. Sequential histories "
                    "and check/commit interleavings at the one yield point that matters for the cells (cache operations are under a lock, counter updates "
-                   "are single atomic adds); the check-then-act overshoot between goroutines is a third known finding. Values: int, int64, string, bool, nil (no float/NaN, "
+                   "are single atomic adds). Values: int, int64, string, bool, nil (no float/NaN, "
                    "no unhashable values); QPS rules are inert here (C05)."),
     "design_ref": "DESIGN.md 6.C06",
 }
